@@ -288,3 +288,15 @@ Theorem app_priority_classes :
     end.
 Proof. exact app_priority_classes_proof. Qed.
 Print Assumptions app_priority_classes.
+
+(** a positive guarantee UNDER interleaving (any configuration, any Insert / Remove between two Next()): the
+    transaction an iterator movement (Select or Next) arrives at is pending at that moment — the iterator may
+    skip pending transactions or stop early (witnesses above), it never hands out a removed one.
+    [aproj] maps the API history to the Insert / Remove / Select history that defines the pending set. *)
+Theorem interleaved_yield_is_pending : forall c ops o it,
+  o = AOpen \/ o = ANext ->
+  (o = ANext -> exists it0, a_it (arun c ops) = SAt it0) ->
+  a_it (arun c (ops ++ [o])) = SAt it ->
+  In (it_tx it) (map tx_sn (pendc c (flat_map aproj (ops ++ [o])))).
+Proof. exact interleaved_yield_is_pending_proof. Qed.
+Print Assumptions interleaved_yield_is_pending.
